@@ -24,12 +24,13 @@ TraceInit == l = 2 /\ TLCSet(1, 1) /\ Trace[1].ev = "reset" /\ AcceptInit(Trace[
 TReset ==
   /\ Ev("reset")
   /\ have' = {} /\ status' = "idle" /\ certs' = <<>> /\ idx' = 1 /\ out' = <<>> /\ script' = <<>> /\ nreq' = 0 /\ res' = "none"
-  /\ prod' = [c \in Chunks |-> "none"] /\ limit' = T.limit /\ pend' = {}
+  /\ prod' = [c \in Chunks |-> "none"] /\ limit' = T.limit /\ pend' = {} /\ failput' = 0 /\ nput' = 0
 TStore == Ev("store") /\ Store(T.c, T.p) /\ Mark(PW(T.p) + 1 > limit, "STORE_OVER_LIMIT")
-TCall  == Ev("accept_call") /\ AcceptCall(T.certs, T.prods, MapKinds(T.script))
+TCall  == Ev("accept_call") /\ AcceptCall(T.certs, T.prods, MapKinds(T.script), T.failput)
 (* the chunk is fetched although it pushes its producer over the rate limit: must succeed all the same *)
 TReq   == Ev("req") /\ Request(T.want, KindOf(T.kind)) /\ T.n = nreq'
           /\ Mark(KindOf(T.kind) = "valid" /\ OverLimit, "FETCH_OVER_LIMIT")
+          /\ Mark(StoreFails, "STORE_FAIL_RETRY")     \* the acceptor's database refuses this chunk's pending record once
 TRet   == Ev("accept_ret") /\ AcceptReturn /\ T.res = "ok" /\ T.chunks = out      \* C35: ChunksExact, no error
 
 TraceNext == TReset \/ TStore \/ TCall \/ TReq \/ TRet
